@@ -42,7 +42,7 @@ CASE_TIMEOUT = {"quick": 900, "thorough": 3000}
 def plan(tier, seed):
     util.import_aldy()
     cases = [{"kind": "shipped", "gene": g} for g in tables.shipped_gene_names()]
-    n = 48 if tier == "quick" else 1500
+    n = 320 if tier == "quick" else 3000
     cases += [{"kind": "gen", "seed": seed, "k": k} for k in range(n)]
     return cases
 
